@@ -8,6 +8,13 @@ import (
 	"strconv"
 )
 
+const (
+	kessokuImportName = "kessoku"
+	kessokuImportPath = "github.com/mazrean/kessoku"
+	// packageScopeName marks a name taken by a package-level declaration (not by an import).
+	packageScopeName = "\x00package scope"
+)
+
 // TypeConverter handles conversion of types.Type to ast.Expr with proper package qualifiers.
 // It tracks which imports are needed for external types.
 type TypeConverter struct {
@@ -19,12 +26,23 @@ type TypeConverter struct {
 
 // NewTypeConverter creates a new TypeConverter for the given package.
 func NewTypeConverter(currentPkg *types.Package) *TypeConverter {
-	return &TypeConverter{
+	tc := &TypeConverter{
 		currentPkg:   currentPkg,
 		imports:      make(map[string]string),
 		usedNames:    make(map[string]string),
 		nameCounters: make(map[string]int),
 	}
+
+	// An import name must not repeat a name the package declares at package level,
+	// and "kessoku" is the name the output imports the kessoku package under.
+	if currentPkg != nil && currentPkg.Scope() != nil {
+		for _, name := range currentPkg.Scope().Names() {
+			tc.usedNames[name] = packageScopeName
+		}
+	}
+	tc.usedNames[kessokuImportName] = kessokuImportPath
+
+	return tc
 }
 
 // Imports returns the collected import specifications needed for the generated code.
